@@ -30,6 +30,8 @@ type FuncResult struct {
 	UnusedCallee []string      `json:"unused_callee_clauses,omitempty"`
 	GuardClauses []string      `json:"guard_clauses,omitempty"` // requires of callee clauses no call matches on this tree: they guard calls a change may introduce
 	Loops        int           `json:"loops"`
+	LoopSigs     []string      `json:"loop_sigs,omitempty"`
+	LoopRemap    bool          `json:"loops_remapped,omitempty"`
 	LoopsNoInv   []int         `json:"loops_without_invariant,omitempty"`
 	Drift        []string      `json:"drift,omitempty"`
 	GenMs        float64       `json:"gen_ms"`
@@ -41,6 +43,7 @@ type Result struct {
 	Packages  []string      `json:"packages"`
 	Functions []*FuncResult `json:"functions"`
 	Missing   []string      `json:"contracts_without_function"`
+	RootFuncs map[string][]string `json:"root_funcs,omitempty"`
 	SpecErr   []string      `json:"spec_errors"`
 	LoadMs    float64       `json:"load_ms"`
 	SolveMs   float64       `json:"solve_ms"`
@@ -62,6 +65,8 @@ func main() {
 	sweep := flag.Bool("sweep", false, "zero-annotation sweep: also process functions without a contract (safety obligations only; results are leads, not claims)")
 	target := flag.String("target", "", "concretisation mode: only obligations whose clause contains this text and (if given after '@') whose position matches")
 	verbose := flag.Bool("v", false, "verbose")
+	knownFuncsF := flag.String("knownfuncs", "", "JSON file: package path -> functions present on the baseline tree; a same-package callee without contract that is not listed (a helper introduced by the change) is executed in place")
+	loopSigsF := flag.String("loopsigs", "", "JSON file: pkg::func -> loop signatures recorded on the baseline tree (loops that were merely reordered keep their contract ordinals)")
 	flag.Parse()
 
 	var overlay map[string][]byte
@@ -87,6 +92,16 @@ func main() {
 	t0 := time.Now()
 	patterns := strings.Split(*pkgsF, ",")
 	w, err := loadWorld(*repo, patterns, *lib, overlay)
+	if err == nil && *knownFuncsF != "" {
+		if data, e := os.ReadFile(*knownFuncsF); e == nil {
+			_ = json.Unmarshal(data, &w.knownFuncs)
+		}
+	}
+	if err == nil && *loopSigsF != "" {
+		if data, e := os.ReadFile(*loopSigsF); e == nil {
+			_ = json.Unmarshal(data, &w.baseLoopSigs)
+		}
+	}
 	if err != nil {
 		fatal(err)
 	}
@@ -94,6 +109,7 @@ func main() {
 	res.LoadMs = ms(time.Since(t0))
 	fns, missing := w.functionsUnderContract(*sweep)
 	res.Missing = missing
+	res.RootFuncs = w.allRootFuncs()
 	var onlyRe *regexp.Regexp
 	if *only != "" {
 		onlyRe = regexp.MustCompile(*only)
@@ -325,6 +341,8 @@ func verifyFunction(w *World, fn *ssa.Function, unroll int) *FuncResult {
 	fr.Abstractions = dedupAbs(g.abstractions)
 	fr.Trusted = sortedKeys(g.trustedUsed)
 	fr.Loops = len(g.loops)
+	fr.LoopSigs = g.loopSigs
+	fr.LoopRemap = g.loopRemapped
 	for _, li := range g.loops {
 		if li.spec == nil || len(li.spec.Invariants) == 0 {
 			fr.LoopsNoInv = append(fr.LoopsNoInv, li.ordinal)
@@ -332,8 +350,12 @@ func verifyFunction(w *World, fn *ssa.Function, unroll int) *FuncResult {
 	}
 	sort.Ints(fr.LoopsNoInv)
 	if spec != nil {
+		have := map[int]bool{}
+		for _, li := range g.loops {
+			have[li.ordinal] = true
+		}
 		for n := range spec.Loops {
-			if n > len(g.loops) {
+			if !have[n] {
 				// not fatal: the remaining clauses (ensures, callee oracles, safety) are still checked
 				fr.Drift = append(fr.Drift, fmt.Sprintf("contract names loop %d but the function has %d loops", n, len(g.loops)))
 			}
